@@ -154,6 +154,10 @@ structure Pair where
   the value `U` (the enumeration's own NA, e.g. `N2khs_Undef = 0xff` for the 2-bit humidity source of PGN 130311):
   the source form `if (x == 2^n-1) x = U;` after the field has been extracted -/
   naRemap : List (Nat × Nat × Nat) := []
+  /-- the setter as a public function: `name/number of parameters`; `isWrapper`: an inline overload / alias wrapper of
+  the headers (its layout is read through the function it forwards to) -/
+  setterKey : String := ""
+  isWrapper : Bool := false
   deriving Repr
 
 def Pair.W (P : Pair) (o : Nat) : Nat := P.widths.getD o 0
